@@ -490,11 +490,15 @@ def work_codegen(task):
 # ----------------------------------------------------------------------------- (D) TDM programs
 def work_tdm(_):
     res = Res()
-    for N in ([2], [3], [1, 2]):
-        for T in (2, 3):
-            for shift in ("default", 1):
-                res_case = {"kind": "tdm", "N": N, "T": T, "shift": shift}
-                arrs = [[round(0.2 + 0.15 * t, 6) for t in range(T)], [round(0.7 - 0.1 * t, 6) for t in range(T)]]
+    # number of loop variables: 2, and 11 / 12 / 23 (names p10, p11, ... p2 do not sort numerically as strings)
+    # variant 1: a daggered gate and an expression whose parameters are loop variables; variant 2: run / backend options set
+    fam = [(N, T, shift, 2, 0) for N in ([2], [3], [1, 2]) for T in (2, 3) for shift in ("default", 1)] + [(N, 2, "default", nv, 0) for N in ([2], [1, 2]) for nv in (10, 11, 12, 23)]
+    fam += [(N, 2, "default", 2, var) for N in ([2], [1, 2]) for var in (1, 2)]
+    for N, T, shift, nv, var in fam:
+        if True:
+            if True:
+                res_case = {"kind": "tdm", "N": N, "T": T, "shift": shift, "loop_variables": nv, "variant": var}
+                arrs = [[round(0.2 + 0.15 * t, 6) for t in range(T)], [round(0.7 - 0.1 * t, 6) for t in range(T)]] + [[round(0.05 * k + 0.01 * t, 6) for t in range(T)] for k in range(2, nv)]
                 P = sf.TDMProgram(N=N)
                 C = sum(N)
                 with P.context(*arrs, shift=shift) as (p, q):
@@ -502,9 +506,18 @@ def work_tdm(_):
                     if C >= 2:
                         ops.BSgate(p[0], 0.2) | (q[C - 2], q[C - 1])
                     ops.Rgate(0.3).H | q[C - 1]
+                    for k in range(2, nv):
+                        ops.Rgate(p[k]) | q[C - 1]
+                    if var == 1:
+                        ops.Rgate(p[0]).H | q[C - 1]
+                        ops.Rgate(2 * p[1]) | q[C - 1]
                     ops.MeasureHomodyne(p[1]) | q[0]
                     if len(N) > 1:
-                        ops.MeasureHomodyne(0.1) | q[N[0]]
+                        # a numeric measurement angle in a TDM program makes the XIR reader raise (loud, counted): kept in one family only
+                        ops.MeasureHomodyne(0.1 if T == 3 else p[0]) | q[N[0]]
+                if var == 2:
+                    P.run_options["shots"] = 3
+                    P.backend_options["cutoff_dim"] = 5
                 for ir in IRS:
                     res.n += 1
                     loaded, stage, exc = roundtrip(P, ir)
@@ -512,6 +525,9 @@ def work_tdm(_):
                         res.stats[f"tdm:{ir}:{stage}-raises:{type(exc).__name__}"] += 1
                         continue
                     res.nt += 1
+                    for k, v in options(P).items():
+                        if k in ("shots", "cutoff_dim") and options(loaded)[k] != v:
+                            res.violation(f"C14|{ir}|tdm|option-{k}", f"{ir} round trip of a TDM program (N={N}) with {k}={v!r} gives {k}={options(loaded)[k]!r}", dict(res_case, ir=ir))
                     field, msg = diff_forms(normal_form(P), normal_form(loaded))
                     if field:
                         res.violation(f"C14|{ir}|tdm|{field}", f"{ir} round trip of a TDM program (N={N}, T={T}): {msg}", dict(res_case, ir=ir))
